@@ -165,6 +165,16 @@ def rand_case(rng, max_dim, empty_axis=False, all_zero=False, writer=None):
             'writer': writer or rng.choice(['to_hdf5', 'to_hdf5', 'biom_open', 'save_table'])}
     if rng.random() < 0.3:
         case['np_md'] = True          # the caller's numbers are numpy scalars (what pandas / a loaded table hold)
+    for ax in ('omd', 'smd'):
+        if spec.get(ax) and 'md_edit' not in case and rng.random() < 0.15:
+            before = spec[ax]
+            if len(before[0]) > 1 and rng.random() < 0.5:
+                cat = rng.choice(sorted(before[0]))
+                case['md_edit'] = {'axis': ax, 'mode': 'drop_category', 'category': cat, 'before': before}
+                spec[ax] = [{k: v for k, v in m.items() if k != cat} for m in before]
+            else:
+                case['md_edit'] = {'axis': ax, 'mode': 'clear_all', 'before': before}
+                spec[ax] = None          # every mapping emptied: no id carries a category any more
     case['own_genby'] = rng.choice([None, None, 'an older tool 0.9', 'QIIME 1.9', ' '])
     case['own_date'] = rng.choice([None, None, ['datetime', '2011-12-13T14:15:16.171819'], ['text', '2011-12-13T14:15:16'],
                                    ['text', '24 Aug 2015, 10:15'], ['text', 'yesterday']])
@@ -257,8 +267,11 @@ def build_table(case):
     for i, j in cells:
         mat[i][j] = 1.0
     bspec = dict(spec, mat=mat, layout=lay)
+    edit = case.get('md_edit')
+    if edit:
+        bspec[edit['axis']] = edit['before']          # built with this metadata, edited below through the accessor
     if case.get('np_md'):
-        bspec['omd'], bspec['smd'] = np_md(spec.get('omd')), np_md(spec.get('smd'))
+        bspec['omd'], bspec['smd'] = np_md(bspec.get('omd')), np_md(bspec.get('smd'))
     t = _build_direct(bspec, lay, case['ids_as']) if case.get('ids_as') else tables.build(bspec)
     d = t.matrix_data
     if cells:
@@ -272,6 +285,15 @@ def build_table(case):
             s, e = d.indptr[a], d.indptr[a + 1]
             d.indices[s:e] = d.indices[s:e][::-1].copy()
             d.data[s:e] = d.data[s:e][::-1].copy()
+    if edit:
+        # history: the caller edits the LIVE mappings Table.metadata() hands out (public API); the table then holds
+        # a tuple of emptied / reduced mappings, not None
+        live = t.metadata(axis='observation' if edit['axis'] == 'omd' else 'sample')
+        for i, m in enumerate(live):
+            if edit['mode'] == 'clear_all' or (edit['mode'] == 'clear_some' and i in edit['ids']):
+                m.clear()
+            elif edit['mode'] == 'drop_category':
+                del m[edit['category']]
     t.table_id = spec.get('id')
     t.type = spec.get('type')
     # what the table itself records about its origin (constructor arguments generated_by= / create_date=, or what a
